@@ -8,7 +8,7 @@ import shutil
 import sqlite3
 
 from .. import runner
-from ..framework import ALL_SCHEMAS, schema_tuple
+from ..framework import ALL_SCHEMAS, DIR_NAME_POOL, dir_name, schema_tuple
 
 LEVEL = "exploration"
 RULE = ("every version triple of the box 0..4 x 0..23 x 0..4 (600 triples) written into copies of five template libraries "
@@ -152,6 +152,17 @@ def run(ctx):
             cid = "slash-" + s_
             slash[cid] = s_
             loads.append({"id": cid, "ops": [{"op": "load", "dir": tdirs[s_] + "/"}, {"op": "exists", "dir": tdirs[s_] + "/"}, {"op": "release_all"}]})
+        # the same libraries under directory names with characters special to URIs, SQL or shells
+        for j, s_ in enumerate(TEMPLATES):
+            for k in range(1, len(DIR_NAME_POOL)):
+                if (k + j) % 2:
+                    continue
+                d = os.path.join(root, dir_name("named%d_%d" % (j, k), k))
+                os.makedirs(os.path.dirname(d), exist_ok=True)
+                shutil.copytree(tdirs[s_], d)
+                cid = "named-%d-%d" % (j, k)
+                slash[cid] = s_
+                loads.append({"id": cid, "ops": [{"op": "load", "dir": d}, {"op": "exists", "dir": d}, {"op": "release_all"}]})
         results = {}
         runner.run_cases(loads, cfg="plain", on_result=lambda r: results.__setitem__(r.case["id"], r))
         for cid, (s_, mt, pt, marker) in disagree.items():
@@ -187,8 +198,13 @@ def run(ctx):
             r = results.pop(cid)
             ctx.count()
             ev = r.events
+            named = cid.startswith("named-")
+            if named:
+                ctx.bump("specially_named_directories")
             if r.crash or not ev or "exc" in ev[0] or ev[0]["ret"]["version_name"] != s_ or ev[0]["ret"]["loaded_schema"] != s_:
-                ctx.violation(f"trailing-slash-path-misidentified {s_}", f"loading {s_} through a path with a trailing slash gives "
+                shape = DIR_NAME_POOL[int(cid.split("-")[2])].format("NAME")[:20] if named else ""
+                ctx.violation(f"specially-named-directory-misidentified {shape}" if named else f"trailing-slash-path-misidentified {s_}",
+                              f"loading {s_} through a path {'named ' + shape if named else 'with a trailing slash'} gives "
                               f"{ev[0].get('ret') if ev else None}{ev[0].get('exc', {}).get('type') if ev and 'exc' in ev[0] else ''}", {"ops": r.case["ops"]})
             elif ev[1].get("ret") is not True:
                 ctx.violation(f"trailing-slash-exists-false {s_}", "database_exists() is false for a library named with a trailing slash", {"ops": r.case["ops"]})
